@@ -46,6 +46,15 @@ CHECKS = {
             "(where the float radius sqrt(2)k could round down) are validated by TraceNN.tla.",
             "Trusted: TLC, Strings.tla. The float radius is outside the model: covered by boundary sessions k<=20 only.",
             "TLA+ model checking (TLC) + spec-to-code replay + trace validation"),
+    "C05": ("DESIGN.md 4/C05",
+            "PcDelta.tla: ShortCircuit (bins = 0 -> pc), Downsample (nondeterministic sub-collection), ChooseMetric (default-metric table), "
+            "Distances (one per unordered pair / full cross), Histogram (NumPy bin convention), Normalise (pseudocount arithmetic); TLC checks "
+            "CountsExact, ZeroBin, SampleSize, NormalisedSumsToOne, DefaultMetricTable for all small collections of strings and TCR rows, edge "
+            "vectors, pseudocounts and maxseqs; mutants (full square matrix, swapped alpha/beta default) are rejected. Every terminal behaviour "
+            "is executed on pcDelta (maxseqs: the result under several seeds must be one of the enumerated outcomes); random repertoires / "
+            "tables, sample-size sessions and load_pcDelta_background are validated by TracePcDelta.tla.",
+            "Trusted: TLC, Strings.tla, Rational.tla; TCR rows modelled by their CDR3 strings; down-sampling beyond the bounds only through the pair-count clause.",
+            "TLA+ model checking (TLC) + spec-to-code replay (incl. nondeterministic outcomes) + trace validation"),
     "C06": ("DESIGN.md 4/C06",
             "Estimators.tla reduces 'E[pc_n] = sum p^2 for all p' (and the two-sample and variance claims) to one exact identity per count "
             "vector (coefficients of p^n of a homogeneous polynomial identity); TLC checks MeanUnbiased / CrossUnbiased / VarUnbiased for every "
